@@ -24,11 +24,53 @@ open TV TV.Strat TV.Agg TV.Reagg
 variable {F : Type} [Num F]
 
 /-- the flow recorded for a round lists, position by position, what each probe of the round saw: the
-responder of a completed probe, `unknown` for an awaited one (failed/skipped/unsent slots carry no
-position), cut at the round's path length -/
+responder of a completed probe, `unknown` for an awaited or failed one (skipped/unsent slots are no
+probes and carry no position), cut at the round's path length -/
 theorem roundFlow_records (r : Round) :
     roundFlow r = ((r.probes.filterMap flowHop).take r.largestTtl).map
       (fun | some a => FlowEntry.known a | none => FlowEntry.unknown) := rfl
+
+/-- the responder a slot reports, if any -/
+def hostOf : Slot → Option Nat
+  | .complete c => some c.host
+  | _ => none
+
+/-- **Positions are probed hops.**  The flow of a round has exactly one entry per hop the round
+probed, in probe order (strictly ascending TTLs for a well-formed round): the responder of a
+completed probe, `unknown` for a probe that is still awaited *or could not be sent*.  Skipped and
+unused slots are not probes and take no position.  (Before fix `eebeff3` a probe that failed to send
+was left out and every later hop moved up one position: `flow_positions_before_fix`.) -/
+theorem flow_positions_are_probed_hops (r : Round) :
+    r.probes.filterMap flowHop = r.probes.filterMap (fun s => (slotTtl s).map fun _ => hostOf s) ∧
+    (r.probes.filterMap flowHop).length = (ttls r.probes).length := by
+  have h : ∀ s : Slot, flowHop s = (slotTtl s).map fun _ => hostOf s := by
+    intro s; cases s <;> rfl
+  have h1 : r.probes.filterMap flowHop = r.probes.filterMap (fun s => (slotTtl s).map fun _ => hostOf s) := by
+    congr 1; funext s; exact h s
+  refine ⟨h1, ?_⟩
+  rw [h1]
+  unfold ttls
+  induction r.probes with
+  | nil => rfl
+  | cons s ps ih =>
+    simp only [List.filterMap_cons]
+    cases hs : slotTtl s <;> simp [hs, ih]
+
+/-- the code before the fix: a failed probe had no position -/
+def flowHopOld : Slot → Option (Option Nat)
+  | .awaited _ => some none
+  | .complete c => some (some c.host)
+  | _ => none
+
+/-- witness: on the path `[a, b, c]`, a round in which the ttl 2 probe failed to send was recorded as
+`[a, c]` — `c` in the position of hop 2 — by the old code, and is `[a, ?, c]` now -/
+theorem flow_positions_before_fix (p1 p2 p3 : Probe) (c1 c3 : Complete)
+    (h1 : c1.host = 1) (h3 : c3.host = 3) :
+    [Slot.complete c1, .failed p2, .complete c3].filterMap flowHopOld = [some 1, some 3] ∧
+    [Slot.complete c1, .failed p2, .complete c3].filterMap flowHop = [some 1, none, some 3] := by
+  constructor
+  · simp only [List.filterMap_cons, List.filterMap_nil, flowHopOld, h1, h3]
+  · simp only [List.filterMap_cons, List.filterMap_nil, flowHop, h1, h3]
 
 /-- (1)+(2) After any history the run has not panicked, identifiers are `1, 2, …, n` in registration
 order, the next identifier is `n + 1`, and `n ≤ maxFlows`. -/
@@ -224,6 +266,8 @@ example : (regRun 8 Registry.new exHist).flows =
 end TV.Props.C15
 
 #print axioms TV.Props.C15.roundFlow_records
+#print axioms TV.Props.C15.flow_positions_are_probed_hops
+#print axioms TV.Props.C15.flow_positions_before_fix
 #print axioms TV.Props.C15.ids_dense_and_bounded
 #print axioms TV.Props.C15.stored_flows_only_grow
 #print axioms TV.Props.C15.le_agrees
